@@ -1,5 +1,5 @@
 use crate::{
-    specification::{A2lFile, A2lObject, A2lObjectName},
+    specification::{A2lFile, A2lObject, A2lObjectName, Module},
     ItemList,
 };
 use std::cmp::Ordering;
@@ -35,6 +35,9 @@ pub(crate) fn sort_new_items(a2l_file: &mut A2lFile) {
      * Then the max uid of each type of item is found, and new items of that type are assigned uid = max_uid + 1
      */
     for module in &mut a2l_file.project.module {
+        // every call doubles the uids; renumber them before they can overflow
+        compact_module_uids(module);
+
         let next_uid = sort_optional_item(&mut module.a2ml, 1);
         let next_uid = sort_optional_item(&mut module.mod_common, next_uid);
         sort_optional_item(&mut module.mod_par, next_uid);
@@ -99,6 +102,70 @@ pub(crate) fn sort_new_items(a2l_file: &mut A2lFile) {
         }
 
         sort_optional_item(&mut module.variant_coding, 0);
+    }
+}
+
+// Once a uid inside a MODULE reaches this limit, all uids of the MODULE are renumbered compactly
+const UID_COMPACT_LIMIT: u32 = 1 << 30;
+
+/// Repeated calls of sort_new_items() double the uids each time, which would eventually overflow.
+/// Only the relative order of the uids matters, so they can be replaced by their rank.
+fn compact_module_uids(module: &mut Module) {
+    let mut uids = std::collections::BTreeSet::new();
+    visit_module_uids(module, &mut |uid| {
+        uids.insert(*uid);
+    });
+    if uids.last().is_some_and(|max_uid| *max_uid >= UID_COMPACT_LIMIT) {
+        // zero marks a new item and must stay zero; all other uids are replaced by their rank
+        uids.remove(&0);
+        let uids: Vec<u32> = uids.into_iter().collect();
+        visit_module_uids(module, &mut |uid| {
+            if let Ok(rank) = uids.binary_search(uid) {
+                *uid = rank as u32 + 1;
+            }
+        });
+    }
+}
+
+/// call f with the uid of every direct child of the MODULE (all of these are ordered together by the writer)
+fn visit_module_uids(module: &mut Module, f: &mut dyn FnMut(&mut u32)) {
+    fn visit<'a, T, U>(items: impl IntoIterator<Item = &'a mut T>, f: &mut dyn FnMut(&mut u32))
+    where
+        T: A2lObject<U> + 'a,
+    {
+        for item in items {
+            f(&mut item.get_layout_mut().uid);
+        }
+    }
+
+    visit(&mut module.a2ml, f);
+    visit(&mut module.mod_common, f);
+    visit(&mut module.mod_par, f);
+    visit(&mut module.variant_coding, f);
+    visit(&mut module.if_data, f);
+    visit(&mut module.user_rights, f);
+    visit(&mut module.axis_pts, f);
+    visit(&mut module.blob, f);
+    visit(&mut module.characteristic, f);
+    visit(&mut module.compu_method, f);
+    visit(&mut module.compu_tab, f);
+    visit(&mut module.compu_vtab, f);
+    visit(&mut module.compu_vtab_range, f);
+    visit(&mut module.frame, f);
+    visit(&mut module.function, f);
+    visit(&mut module.group, f);
+    visit(&mut module.instance, f);
+    visit(&mut module.measurement, f);
+    visit(&mut module.record_layout, f);
+    visit(&mut module.transformer, f);
+    visit(&mut module.typedef_axis, f);
+    visit(&mut module.typedef_blob, f);
+    visit(&mut module.typedef_characteristic, f);
+    visit(&mut module.typedef_measurement, f);
+    visit(&mut module.typedef_structure, f);
+    visit(&mut module.unit, f);
+    for comment in &mut module.a2lcomment {
+        f(&mut comment.uid);
     }
 }
 
